@@ -460,7 +460,9 @@ func compare(yylex yyLexer, l expr, op string, r expr) (x expr) {
 func (env *ExecEnv) Eval(expr string) (n int, err error) {
 	l := newLexer(env, strings.NewReader(expr))
 	defer func() {
-		if e := recover(); e != nil {
+		e := recover()
+		l.stop()
+		if e != nil {
 			l.Error(e.(error).Error())
 			err = l.err
 		}
